@@ -32,3 +32,9 @@ pub use worker::GCWorker;
 pub(crate) use worker::GCWorkerShared;
 
 pub(crate) mod gc_work;
+
+/// Hooks for the external verification harness.
+#[cfg(feature = "mmtk_verif")]
+pub mod verif_hooks {
+    pub use super::worker::verif_set_worker_ordinal;
+}
